@@ -823,10 +823,13 @@ def rules(repo=None):
     from . import c13
     return [lambda: r1_append_and_refuse(repo), lambda: r2_range_filter(repo), lambda: r3_numeric_key_order(repo),
             lambda: c13.r1_exact_placement(repo, rid="C12.R4"), lambda: r5_recursive_shape(repo), lambda: r6_list_edges(repo),
-            lambda: r7_indices_stay_exact(repo), lambda: r8_per_sample_split_reaches_nested_values(repo)]
+            lambda: r7_indices_stay_exact(repo), lambda: r8_per_sample_split_reaches_nested_values(repo),
+            lambda: c13.r9_reader_file_list_has_no_memory(repo, rid="C12.R9", view="perfile")]
 
 
 EXPLANATION = (
+    "R9 (who-may-write, see C13.R9): an attribute of the reader that the per-file reading method reads is stored or mutated only by "
+    "the constructor - an index of a file's samples remembered across reads hides samples appended to the file later. "
     "R1: the metadata data file is opened with mode 'a', sample groups are made with create_group inside a try whose "
     'ValueError handler raises, values are written only with create_dataset into the new group. R2: every _add_metadata '
     'call from read passes is_edge True, or False only for files strictly between the first and last of the list; the '
